@@ -69,6 +69,9 @@ pub struct TraceEv {
     pub op: String,
     pub msg_id: String,
     pub delivered: bool,
+    /// for Response frames: the result variant and, for NodesFound, the ids named
+    pub result: Option<String>,
+    pub nodes: Vec<String>,
 }
 
 pub struct SimNet {
@@ -188,7 +191,16 @@ impl VerifRouter for SimNet {
                 }
             }
         };
-        let mut ev = TraceEv { at_ms: self.now_ms(), from: from.into(), to: to.into(), is_request, op, msg_id, delivered: false };
+        let (result, nodes) = match dht.as_ref().and_then(|m| m.result.as_ref()) {
+            Some(DhtNetworkResult::NodesFound { nodes, .. }) => (Some("NodesFound".to_string()), nodes.iter().map(|n| n.peer_id.clone()).collect()),
+            Some(DhtNetworkResult::ValueFound { .. }) => (Some("ValueFound".to_string()), vec![]),
+            Some(DhtNetworkResult::GetSuccess { .. }) => (Some("GetSuccess".to_string()), vec![]),
+            Some(DhtNetworkResult::GetNotFound { .. }) => (Some("GetNotFound".to_string()), vec![]),
+            Some(DhtNetworkResult::PutSuccess { .. }) => (Some("PutSuccess".to_string()), vec![]),
+            Some(_) => (Some("Other".to_string()), vec![]),
+            None => (None, vec![]),
+        };
+        let mut ev = TraceEv { at_ms: self.now_ms(), from: from.into(), to: to.into(), is_request, op, msg_id, delivered: false, result, nodes };
         // real destination
         let real = self.real.lock().unwrap().get(to).cloned();
         if let Some(node) = real {
@@ -256,7 +268,7 @@ impl VerifRouter for SimNet {
     async fn connect(&self, from: &str, address: &str) -> saorsa_core::Result<String> {
         let id = self.by_addr.lock().unwrap().get(address).cloned();
         self.trace.lock().unwrap().push(TraceEv { at_ms: self.now_ms(), from: from.into(), to: address.into(), is_request: false,
-            op: format!("Dial:{}", if id.is_some() { "ok" } else { "refused" }), msg_id: String::new(), delivered: id.is_some() });
+            op: format!("Dial:{}", if id.is_some() { "ok" } else { "refused" }), msg_id: String::new(), delivered: id.is_some(), result: None, nodes: vec![] });
         let Some(id) = id else {
             return Err(transport_err(format!("connection refused: {address}")));
         };
